@@ -45,6 +45,13 @@ func (s *plainStore) tick(what string) bool {
 	return n == s.failAt
 }
 
+func (s *plainStore) traceAt(i int) string {
+	if i >= 0 && i < len(s.trace) {
+		return s.trace[i]
+	}
+	return "?"
+}
+
 type plainView struct {
 	s    *plainStore
 	path string
